@@ -391,3 +391,68 @@ Proof.
   intros Hd. destruct (srun_inv ops init) as [Ht Hc]; [split; [reflexivity|apply coherent_init]|exact Hd|].
   cbn zeta. split; [exact Ht|]. split; [exact Hc|]. apply coherent_wf_out, Hc.
 Qed.
+
+(* ------------------------------------------------------------------ *)
+(* decidable form of the discipline (for examples and tests)            *)
+
+Definition single_keystoneb (ks : gmap key key) : bool :=
+  bool_decide (NoDup ((map_to_list ks).*2)).
+
+Lemma single_keystoneb_sound ks : single_keystoneb ks = true -> single_keystone ks.
+Proof.
+  intros H o1 o2 k H1 H2. apply bool_decide_eq_true in H.
+  apply elem_of_map_to_list in H1, H2.
+  apply elem_of_list_lookup in H1 as [i Hi]. apply elem_of_list_lookup in H2 as [j Hj].
+  assert (i = j).
+  { eapply NoDup_lookup; [exact H| |]; rewrite list_lookup_fmap; [rewrite Hi|rewrite Hj]; reflexivity. }
+  subst j. congruence.
+Qed.
+
+Definition half_openb (m : mem) (ik : key) : bool :=
+  match found_obj m ik with
+  | Some o => match o_out o with None => true | Some _ => false end
+  | None => false
+  end.
+
+Definition call_disciplinedb (m : mem) (c : call) : bool :=
+  match c with
+  | COpen kss =>
+    bool_decide (NoDup (map fst kss)) && bool_decide (NoDup (map snd kss)) &&
+    forallb (fun ks : key * key => half_openb m ks.1) kss
+  | CDelete ks =>
+    forallb (fun k : key => match pending m !! k with
+                            | None => true
+                            | Some _ => bool_decide (k ∈ closed m)
+                            end) ks
+  | _ => true
+  end.
+
+Lemma call_disciplinedb_sound m c : call_disciplinedb m c = true -> call_disciplined m c.
+Proof.
+  destruct c as [cs|kss|ch st|ok|ik|ks]; cbn; try (intros; exact I).
+  - intros H. apply andb_true_iff in H as [H H3]. apply andb_true_iff in H as [H1 H2].
+    apply bool_decide_eq_true in H1. apply bool_decide_eq_true in H2.
+    split; [exact H1|]. split; [exact H2|]. intros ik ok Hin.
+    rewrite forallb_forall in H3. specialize (H3 (ik, ok)). cbn in H3.
+    unfold half_openb in H3. apply elem_of_list_In in Hin. specialize (H3 Hin).
+    destruct (found_obj m ik) as [o|]; [|discriminate]. destruct (o_out o) eqn:Ho; [discriminate|]. eauto.
+  - intros H k Hin Hp. rewrite forallb_forall in H. apply elem_of_list_In in Hin. specialize (H k Hin).
+    destruct (pending m !! k); [|contradiction]. apply bool_decide_eq_true in H. exact H.
+Qed.
+
+Fixpoint seq_disciplinedb (c : config) (ops : list sop) : bool :=
+  match ops with
+  | [] => true
+  | o :: r =>
+    match o with
+    | SCall cl _ => call_disciplinedb (c_mem c) cl
+    | SRestart _ => single_keystoneb (d_ks (c_disk c))
+    end && seq_disciplinedb (sstep c o) r
+  end.
+
+Lemma seq_disciplinedb_sound : forall ops c, seq_disciplinedb c ops = true -> seq_disciplined c ops.
+Proof.
+  induction ops as [|o ops IH]; intros c H; [exact I|]. cbn [seq_disciplinedb] in H.
+  apply andb_true_iff in H as [H1 H2]. split; [|apply IH; exact H2].
+  destruct o; [apply call_disciplinedb_sound|apply single_keystoneb_sound]; exact H1.
+Qed.
